@@ -12,9 +12,13 @@ Open Scope Z_scope.
 Definition rp := (Z * string * bool)%type.
 Definition mkp (x : rp) : param := let '(id, s, t) := x in P id (hx s) t.
 
+(* wkeys: key_share entries on the wire as (group with GREASE values folded to 0x0a0a,
+   key_exchange length, bytes when the spec supplied bytes for that entry, else "") *)
 Inductive dstep :=
-| DStep (sup : list Z) (rnd : bool) (swaps : list (Z * Z)) (scid : string) (wire : list (Z * string)).
-Inductive case := DSeq (ps0 : list rp) (steps : list dstep).
+| DStep (sup : list Z) (rnd : bool) (swaps : list (Z * Z)) (scid : string) (wire : list (Z * string))
+        (wkeys : list (Z * Z * string)).
+(* keys0: the spec's KeyShareExtension as (group, Data) *)
+Inductive case := DSeq (ps0 : list rp) (keys0 : list (Z * string)) (steps : list dstep).
 
 Definition nat_swaps (sw : list (Z * Z)) : list (nat * nat) :=
   map (fun p => (Z.to_nat (fst p), Z.to_nat (snd p))) sw.
@@ -24,28 +28,31 @@ Definition nonneg_swaps (sw : list (Z * Z)) : bool :=
 (* the recorded swaps must be those of rand.Shuffle over the kept list (n-1 .. 1, j <= i);
    none when the dial does not shuffle *)
 Definition swaps_ok (ps : list param) (s : dstep) : bool :=
-  let '(DStep sup rnd sw _ _) := s in
+  let '(DStep sup rnd sw _ _ _) := s in
   if rnd then nonneg_swaps sw && swaps_wellformed (List.length (suppress sup ps) - 1) (nat_swaps sw)
   else match sw with [] => true | _ => false end.
 
 Fixpoint ops_of (steps : list dstep) : list op :=
   match steps with
   | [] => []
-  | DStep sup rnd sw scid _ :: r =>
-    OSetSup sup :: OSetRnd rnd :: ODial (hx scid) (Oracle (map snd (nat_swaps sw)) [] []) :: ops_of r
+  | DStep sup rnd sw scid _ wk :: r =>
+    (* the keys uTLS generates are not the model's business: any key longer than one byte *)
+    OSetSup sup :: OSetRnd rnd ::
+    ODial (hx scid) (Oracle (map snd (nat_swaps sw)) [] (repeat [1; 1] (List.length wk))) :: ops_of r
   end.
 
 Inductive obs :=
 | OBadSwaps
 | OPanic
-| OWires (l : list (option (list (Z * list Z)))).
+| OWires (l : list (option (list (Z * list Z)) * list keyshare)).
 
 Definition model_obs (c : case) : obs :=
-  let '(DSeq ps0 steps) := c in
+  let '(DSeq ps0 keys0 steps) := c in
   let ps := map mkp ps0 in
+  let keys := map (fun k => KS (fst k) (hx (snd k))) keys0 in
   if forallb (swaps_ok ps) steps then
-    match run (Spec ps None [] [] [] false) (ops_of steps) with
-    | Some (_, views) => OWires (map (fun sw => parse (wExt (snd sw))) views)
+    match run (Spec ps None keys [] [] false) (ops_of steps) with
+    | Some (_, views) => OWires (map (fun sw => (parse (wExt (snd sw)), wKeys (snd sw))) views)
     | None => OPanic
     end
   else OBadSwaps.
@@ -56,15 +63,29 @@ Fixpoint wire_eqb (a : list (Z * list Z)) (b : list (Z * string)) : bool :=
   | (i, v) :: a', (j, s) :: b' => (i =? j) && zeqb_list v (hx s) && wire_eqb a' b'
   | _, _ => false
   end.
-Fixpoint wires_eqb (m : list (option (list (Z * list Z)))) (steps : list dstep) : bool :=
+Definition norm16 (g : Z) : Z := if isGrease16 g then 2570 else g.
+(* spec entry, the model's entry for the wire, the wire's entry *)
+Fixpoint keys_eqb (spec : list (Z * string)) (m : list keyshare) (w : list (Z * Z * string)) : bool :=
+  match spec, m, w with
+  | [], [], [] => true
+  | (_, sd) :: spec', k :: m', (g, len, d) :: w' =>
+    (norm16 (kGroup k) =? g) &&
+    (match hx sd with
+     | [] => 0 <? len                                        (* generated: some key, never empty *)
+     | _ => zeqb_list (kData k) (hx d) && (zlen (kData k) =? len)   (* supplied: exactly those bytes *)
+     end) && keys_eqb spec' m' w'
+  | _, _, _ => false
+  end.
+Fixpoint wires_eqb (keys0 : list (Z * string)) (m : list (option (list (Z * list Z)) * list keyshare)) (steps : list dstep) : bool :=
   match m, steps with
   | [], [] => true
-  | Some l :: m', DStep _ _ _ _ wire :: r => wire_eqb l wire && wires_eqb m' r
+  | (Some l, ks) :: m', DStep _ _ _ _ wire wk :: r =>
+    wire_eqb l wire && (match wk with [] => true | _ => keys_eqb keys0 ks wk end) && wires_eqb keys0 m' r
   | _, _ => false
   end.
 
 Definition check_case (c : case) : bool :=
   match model_obs c with
-  | OWires m => let '(DSeq _ steps) := c in wires_eqb m steps
+  | OWires m => let '(DSeq _ keys0 steps) := c in wires_eqb keys0 m steps
   | _ => false
   end.
